@@ -1,3 +1,152 @@
-From EN Require Import Lib.Bytes Conc.TlsBase Conc.TlsPump Conc.TlsEof Gen.ParamsC09.
-Theorem placeholder_c09 : True. Proof. exact I. Qed.
-Print Assumptions placeholder_c09.
+(* C09 — TLS truncation is never reported as a clean end-of-stream.
+   Statements only; proofs in Proofs/C09_proofs.v.  The models: Conc/TlsPump.v (the pump), Conc/TlsEof.v (what
+   recv / recv_into / aclose / close report, asynchronous and blocking), Conc/IdealTls.v (ideal record layer),
+   Gen/ParamsC09.v (except-clause tables regenerated from /repo on every run). *)
+From Coq Require Import List Bool.
+From EN Require Import Lib.Bytes Conc.TlsBase Conc.TlsPump Conc.TlsEof Conc.IdealTls Gen.ParamsC09 Proofs.C09_proofs.
+Import ListNotations.
+
+(* (1) A clean end-of-stream (recv -> b"", recv_into -> 0) is reported only when the pumped ssl_object.read ended
+   with b"" / SSLZeroReturnError (the SSL object saw the peer's close notification) or, with standard-compatible mode
+   disabled, with an SSL EOF error.  For every final outcome of the pump, both receive methods. *)
+Theorem clean_eof_only_after_close_notify : forall std r,
+  (recv_result std r = Ret 0 \/ recv_into_result std r = Ret 0) ->
+  r = ROk 0 \/ r = RSsl EZeroReturn \/ (std = false /\ (r = RSsl ESslEof \/ r = RSsl ESslEofStr)).
+Proof.
+  intros std r [H | H].
+  - exact (recv_with_clean_eof recv_handlers std r (or_introl eq_refl) H).
+  - exact (recv_with_clean_eof recv_into_handlers std r (or_intror eq_refl) H).
+Qed.
+Print Assumptions clean_eof_only_after_close_notify.
+
+(* (1') ... and the pump does not invent that outcome: for every state of the transport and every answer sequence of
+   the SSL object / wrapped transport, a recv() that reports end-of-stream has either seen ssl_object.read return b""
+   or consumed an answer of the SSL object that was SSLZeroReturnError (or an SSL EOF error when std = false). *)
+Theorem clean_eof_comes_from_the_ssl_object : forall std n st answers st' ob rest,
+  run_op std (ORecv n) st answers = (st', ob, rest) ->
+  In (ORes (Ret 0)) ob ->
+  (exists s' acts, run_method MRead n (sh st) answers = (s', ROk 0, acts, rest)) \/
+  (exists x, In (AS x) answers /\
+             (a_out x = SErr EZeroReturn \/ (std = false /\ (a_out x = SErr ESslEof \/ a_out x = SErr ESslEofStr)))).
+Proof. exact recv_eof_from_oracle. Qed.
+Print Assumptions clean_eof_comes_from_the_ssl_object.
+
+(* (2) Standard-compatible mode: every SSL EOF error (SSLEOFError, or the stringly-typed UNEXPECTED_EOF_WHILE_READING
+   SSLError) is re-raised by recv and recv_into — never turned into an end-of-stream. *)
+Theorem truncation_is_error : forall e,
+  is_ssl_eof_error (XSsl e) = true ->
+  recv_result true (RSsl e) = Raise (XR (XSsl e)) /\ recv_into_result true (RSsl e) = Raise (XR (XSsl e)).
+Proof. exact truncation_raises. Qed.
+Print Assumptions truncation_is_error.
+
+(* (2') blocking transport: suppress_ragged_eofs = not standard_compatible, so with std = true the raw SSLEOFError of
+   the C-level read survives ssl.SSLSocket.read, _try_ssl_method and recv_noblock, after any number of would-block
+   rounds (WANT_READ / WANT_WRITE / SSLSyscallError). *)
+Theorem truncation_is_error_blocking : forall pre rest,
+  Forall sync_block pre ->
+  exists waits,
+    sync_retry true true MRead sync_recv_handlers (pre ++ {| s_meth := MRead; s_out := SErr ESslEof |} :: rest)
+    = (waits, Raise (XR (XSsl ESslEof)), rest).
+Proof. exact sync_truncation_raises. Qed.
+Print Assumptions truncation_is_error_blocking.
+
+(* (3) Standard-compatible mode disabled: an abrupt end is an end-of-stream. *)
+Theorem nonstd_abrupt_is_eof : forall e,
+  is_ssl_eof_error (XSsl e) = true ->
+  recv_result false (RSsl e) = Ret 0 /\ recv_into_result false (RSsl e) = Ret 0.
+Proof. exact nonstd_abrupt_eof. Qed.
+Print Assumptions nonstd_abrupt_is_eof.
+
+Theorem nonstd_abrupt_is_eof_blocking : forall pre rest,
+  Forall sync_block pre ->
+  exists waits,
+    sync_retry true false MRead sync_recv_handlers (pre ++ {| s_meth := MRead; s_out := SErr ESslEof |} :: rest)
+    = (waits, Ret 0, rest).
+Proof. exact sync_nonstd_abrupt_eof. Qed.
+Print Assumptions nonstd_abrupt_is_eof_blocking.
+
+(* (4) Closing an open transport in standard-compatible mode: whatever the SSL object appended to the outgoing BIO on
+   the first unwrap() (in the ideal layer: the close notification, see (4')) is the FIRST thing aclose() does — it is
+   handed to the wrapped transport's send_all before anything else, and the wrapped transport is closed afterwards.
+   For every later answer sequence (send failure, timeout, cancellation, peer silent ...).  ORes Desync can only occur
+   if the answer list is not one the code can consume (e.g. too short); the driver never produces such lists. *)
+Theorem close_sends_notify : forall st a answers st' ob rest,
+  closing st = false -> tr_closing st = false -> send_lock (sh st) = false ->
+  a_meth a = MUnwrap -> a_arg a = 0 ->
+  ((exists v, a_out a = SOk v) \/ a_out a = SWantRead) ->
+  wbio (sh st) ++ a_wdelta a <> [] ->
+  run_op true OClose st (AS a :: answers) = (st', ob, rest) ->
+  exists ob', ob = OAct (ASend (wbio (sh st) ++ a_wdelta a)) :: ob' /\
+              (In (OAct AClose) ob' \/ In (ORes Desync) ob').
+Proof. exact aclose_first_action. Qed.
+Print Assumptions close_sends_notify.
+
+(* (4') ideal record layer: the first unwrap() of an established session whose incoming BIO has not hit end-of-file
+   appends exactly the close notification and answers Ok or WantRead — the hypotheses of (4). *)
+Theorem ideal_unwrap_emits_close_notify : forall (E D : byte -> byte) s,
+  i_stage s = 2 -> i_sent_cn s = false -> i_reof s = false ->
+  let '(s', o, out) := unwrap E D s in
+  out = close_notify E /\ i_sent_cn s' = true /\ (o = SOk 0 \/ o = SWantRead).
+Proof. exact unwrap_emits_close_notify. Qed.
+Print Assumptions ideal_unwrap_emits_close_notify.
+
+(* (4'') with standard-compatible mode disabled the closing handshake is skipped. *)
+Theorem nonstd_close_skips_notify : forall st answers,
+  closing st = false ->
+  run_op false OClose st answers =
+    ({| sh := set_deque (sh st) []; closing := true; tr_closing := true |}, [OAct AClose; ORes (Ret 0)], answers).
+Proof. exact nonstd_close_no_unwrap. Qed.
+Print Assumptions nonstd_close_skips_notify.
+
+(* (4''') blocking transport: close() of an open standard-compatible transport calls unwrap() first. *)
+Theorem close_unwraps_first_blocking : forall raw a answers,
+  s_meth a <> MUnwrap ->
+  sync_op raw true OClose {| s_closed := false |} (a :: answers)
+  = ({| s_closed := true |}, [SAct SDesync; SAct SSockClose; SRes Desync], answers).
+Proof. exact sync_close_unwraps_first. Qed.
+Print Assumptions close_unwraps_first_blocking.
+
+(* (5) ideal record layer, every cut offset: a reader whose incoming BIO holds the first k bytes of
+   (any data records ++ close notification), k < the whole length, followed by end-of-file, never answers read() with
+   the clean end-of-stream b"": every answer is SSLEOFError, a non-empty data read, or WantRead (skipped empty record).
+   Together with (2) this is "wherever the cut falls".  E/D: any byte map with D (E x) = x. *)
+Theorem ideal_truncation_never_clean_eof : forall (E D : byte -> byte),
+  (forall x, D (E x) = x) ->
+  forall fuel recs k n s,
+  n > 0 -> k < length (data_stream E recs) ->
+  i_stage s = 2 -> i_got_cn s = false -> i_reof s = true -> i_rbio s = firstn k (data_stream E recs) ->
+  ~ In (SOk 0) (drain D fuel s n).
+Proof. intros E D DE. exact (drain_truncated_never_clean E D DE). Qed.
+Print Assumptions ideal_truncation_never_clean_eof.
+
+(* (6) regenerated tables: both default client contexts clear OP_IGNORE_UNEXPECTED_EOF; the blocking transport asks
+   the stdlib to suppress ragged EOFs exactly when standard-compatible mode is disabled. *)
+Theorem default_client_contexts_clear_ignore_eof : client_default_ctx_clears_ignore_eof = [true; true].
+Proof. reflexivity. Qed.
+Print Assumptions default_client_contexts_clear_ignore_eof.
+
+Theorem suppress_ragged_eofs_iff_not_std : forall std, suppress_ragged_eofs std = negb std.
+Proof. intros std. reflexivity. Qed.
+Print Assumptions suppress_ragged_eofs_iff_not_std.
+
+(* ---- non-vacuity *)
+Definition Ex (b : byte) : byte := N.succ b.
+Definition Dx (b : byte) : byte := N.pred b.
+
+(* a complete stream ends with the clean end-of-stream, the same stream cut one byte short ends with SSLEOFError *)
+Definition ex_reader (k : nat) : ideal :=
+  {| i_client := true; i_stage := 2; i_rbio := firstn k (data_stream Ex [[1; 2; 3]; [4]]%N); i_reof := true;
+     i_plain := []; i_got_cn := false; i_sent_cn := false |}.
+Example ex_complete : drain Dx 9 (ex_reader 10) 2 = [SOk 2; SOk 1; SOk 1; SOk 0].
+Proof. vm_compute. reflexivity. Qed.
+Example ex_cut : drain Dx 9 (ex_reader 9) 2 = [SOk 2; SOk 1; SOk 1; SErr ESslEof].
+Proof. vm_compute. reflexivity. Qed.
+Example ex_cut_mid_record : drain Dx 9 (ex_reader 6) 2 = [SOk 2; SOk 1; SErr ESslEof].
+Proof. vm_compute. reflexivity. Qed.
+(* the hypotheses of close_sends_notify are met by the ideal layer's first unwrap; aclose then sends the notification *)
+Example ex_close :
+  fst (fst (run_op true OClose tstate0
+     [AS {| a_meth := MUnwrap; a_arg := 0; a_out := SWantRead; a_wdelta := close_notify Ex |}; AT TSent; AT (TRcvd [])%N;
+      AS {| a_meth := MUnwrap; a_arg := 0; a_out := SErr ESslEof; a_wdelta := [] |}]))
+  = {| sh := shared0; closing := true; tr_closing := true |}.
+Proof. vm_compute. reflexivity. Qed.
